@@ -199,8 +199,12 @@ impl Scope {
             } => {
                 if *calls_until_ext_bitfield == 0 {
                     if bits.with_read_position_at(*ext_bit_pos, |b| b.read_bit())? {
-                        let read_number_of_ext_fields =
-                            bits.read_normally_small_length()? as usize + 1;
+                        let read_number_of_ext_fields = usize::try_from(
+                            bits.read_normally_small_length()?,
+                        )
+                        .ok()
+                        .and_then(|length| length.checked_add(1))
+                        .ok_or(ErrorKind::ValueExceedsMaxInt)?;
                         if read_number_of_ext_fields > *number_of_ext_fields {
                             #[cfg(feature = "descriptive-deserialize-errors")]
                             descriptions.push(ScopeDescription::warning(
@@ -965,7 +969,10 @@ impl<B: ScopedBitRead> UperReader<B> {
         if let Some(Scope::ExtensibleSequence { .. }) = &self.scope {
             // The extension flag is set, but not a single extension field is known locally,
             // so the header of the extension body has not been read yet
-            let number_of_ext_fields = self.bits.read_normally_small_length()? as usize + 1;
+            let number_of_ext_fields = usize::try_from(self.bits.read_normally_small_length()?)
+                .ok()
+                .and_then(|length| length.checked_add(1))
+                .ok_or(ErrorKind::ValueExceedsMaxInt)?;
             if self.bits.remaining() < number_of_ext_fields {
                 return Err(ErrorKind::EndOfStream.into());
             }
